@@ -7,7 +7,7 @@ import (
 
 // maxQueueC20 bounds the initial values given to Queue constructors in C20
 // (more than the default capacity is C05's subject).
-const maxQueueC20 = 16
+const maxQueueC20 = 20
 
 func c20seq[V comparable](p *core.Property, et seq.ElemType[V], q, t int) {
 	for _, kind := range []string{"Array", "List", "Set", "Stack", "Queue"} {
